@@ -66,6 +66,11 @@ def generate(plan) -> None:
             dhw = None
     app = r.choice([None, "13", "10"])
     k["cfg"] = {"zones": zones, "dhw": dhw, "app": dev(app) if app else None}
+    # with the write gap at 1.0 s a large system's polling burst (a hundred requests at once) waits longer in the transport than the
+    # echo timers do (KF1's mechanism), the 32-slot send buffer overflows, and one and the same probe can then fail at every round: an
+    # artefact of the knob, not of discovery (thorough tier, 1 in 2 000 runs) -- large configurations run with 0.25 s
+    if len(zones) > 6:
+        k["min_gap"] = 0.25
     k["hours"] = 49 if not fault_free else 26
     k["p_drop_rq"] = 0.0 if fault_free else r.choice([0.0, 0.3, 0.7, 0.9])
     k["p_drop_rp"] = 0.0 if fault_free else r.choice([0.1, 0.3, 0.6])
